@@ -2,9 +2,9 @@
 
 CHECK = {
     "harnesses": [
-        {"exe": "c07_lsearch", "flavour": "plain", "cases": (2400000, 24000000), "procs": (8, 14), "subs": ["lsearch"]},
+        {"exe": "c07_lsearch", "flavour": "plain", "cases": (2400000, 30000000), "procs": (8, 14), "subs": ["lsearch"]},
     ],
-    "min_nontrivial": (400000, 4000000),
+    "min_nontrivial": (400000, 5000000),
     "timeout": (900, 7200),
     "rule": ("one lsearchk_t::get call per case: function = generated convex quadratic (50 %, n 1..16, kappa up to 1e6, s in [1e-3,1e3]) or a registered "
              "smooth function at 1..16 dims; state in a box of radius 1e-2..1e3; direction = -g | -g rotated by atan(1e-2..1e3) | -(BB'+delta I)g, scaled by "
